@@ -4,12 +4,16 @@ RC_LIBS = ["-lrapidcheck"]
 
 BINARIES = {
     # name: sources (first = harness TU), flavour, harness name (for replay lookup)
+    "wmm": {"sources": ["harness/queue_wmm.cpp", "engine/rc_driver.cpp"], "flavour": "asan", "libs": RC_LIBS,
+            "harness": "wmm", "probe_params": {}},
     "tsfmt": {"sources": ["harness/tsfmt.cpp", "engine/rc_driver.cpp"], "flavour": "asan", "libs": RC_LIBS,
               "harness": "tsfmt"},
 }
 
 # known-finding class -> binary that implements its probe
 CLASS_BIN = {
+    "wmm.unpublished_reader_remainder": "wmm",
+    "wmm.nonpow2_max_unreachable": "wmm",
     "tsfmt.composite_time_conversion": "tsfmt",
     "tsfmt.offquarter_zone_transition": "tsfmt",
     "tsfmt.duplicate_same_fractional_specifier": "tsfmt",
@@ -24,6 +28,8 @@ HOOKS = {
 }
 
 ENGINES = {
+    "wmm": {"path": "engine/wmm.h", "serves": ["C01", "C02", "C09"],
+            "kind": "std::atomic retarget shim with per-location store history, vector clocks, coherence floors, choice-driven stale loads, coroutine scheduler, payload happens-before race detector"},
     "rcdrv": {"path": "engine/rc_driver.cpp", "serves": ["C13"],
               "kind": "rapidcheck generator+shrinker over a vector<uint32_t> choice stream; in-process or fork-per-case execution; replay files"},
     "check": {"path": "check", "serves": ["C13"],
@@ -36,7 +42,50 @@ NOTES = ("Technique family: property-based testing and fuzzing (rapidcheck-drive
 
 NOT_APPLICABLE = {}
 
+WMM_NOTE = ("Trusts the shim's reading of the C++11 rules (coherence + happens-before per single-writer location, release "
+            "sequences, seq_cst treated as acq_rel), sequential coroutine interleavings preempted at every atomic access; private "
+            "non-atomic members are not tracked (a side touching the other side's private fields is only visible to the TSan job); "
+            "exploration of the axiomatic space, not enumeration.")
+
 PROPERTIES = {
+    "C01": {
+        "technique": "property-based testing: randomised C++11 memory-model simulation of the real queue code vs a FIFO model + happens-before race detector",
+        "level_text": ("Exploration: thousands of generated producer/consumer step interleavings per run over the REAL "
+                       "BoundedSPSCQueueImpl<uint8_t|uint16_t|size_t> code with std::atomic retargeted to a shim that returns any "
+                       "store C++11 allows; capacities 16..4096 (pow2 and not), publish thresholds 0..100 %, sizes 1..capacity+2, "
+                       "wrapped 8/16-bit counters; FIFO/space/contiguity/race oracles. Held on everything generated."),
+        "level_note": WMM_NOTE,
+        "rule": ("case = (integer type, requested capacity, reader publish percent, 1-60 records with sizes drawn relative to the "
+                 "capacity incl. == capacity and > capacity, chunked payload writes, finish/commit batching, consumer read/commit "
+                 "batching, preemption choice at every atomic access, legal-load-value choice at every load); non-trivial = ring "
+                 "wrapped >= 1 AND >= 1 reservation refused AND producer/consumer alternated >= 4 times; distinct = FNV hash of "
+                 "the rendered case (config, sizes, outcome counters)"),
+        "assumptions": ["C++11 axiomatic model as implemented by engine/wmm.h (DESIGN.md Appendix A)", "x86-64 build of the queue code"],
+        "jobs": [
+            {"bin": "wmm", "params": {"prop": "C01"},
+             "quick": {"cases": 1500, "procs": 8, "maxlen": 700},
+             "thorough": {"cases": 25000, "procs": 16, "maxlen": 1400}},
+        ],
+    },
+    "C02": {
+        "technique": "property-based testing: randomised C++11 memory-model simulation of the real queue code vs a FIFO/node model + happens-before race detector + ASan",
+        "level_text": ("Exploration: thousands of generated interleavings per run of producer steps (write, grow incl. multi-doubling, "
+                       "shrink, oversize) and consumer steps (read, switch, free) over the REAL UnboundedSPSCQueue with the atomics "
+                       "shim; initial 16..1024, max 1x..16x pow2 and not; FIFO across nodes, old-buffer-finished-first, cap, throw, "
+                       "must-grant and use-after-retire (ASan, unmapped storage, dead marks) oracles. Held on everything generated."),
+        "level_note": WMM_NOTE,
+        "rule": ("case = (initial capacity, maximum capacity, 1-50 producer ops = records sized relative to the current node / forcing "
+                 "one or several doublings / near max / above max, or shrink requests; consumer read/commit batching; preemption and "
+                 "legal-load-value choices at every atomic access); non-trivial = (consumer observed >= 1 buffer switch AND >= 4 "
+                 "preemptions) OR a shrink followed by a grow; distinct = FNV hash of the rendered case"),
+        "assumptions": ["C++11 axiomatic model as implemented by engine/wmm.h (DESIGN.md Appendix A)",
+                        "shrink is only requested with nothing finished-but-uncommitted (quill always commits per statement)"],
+        "jobs": [
+            {"bin": "wmm", "params": {"prop": "C02"},
+             "quick": {"cases": 1500, "procs": 8, "maxlen": 700},
+             "thorough": {"cases": 25000, "procs": 16, "maxlen": 1400}},
+        ],
+    },
     "C13": {
         "technique": "property-based testing (rapidcheck choice streams) against a libc strftime oracle, with shrinking",
         "level_text": ("Exploration: tens of thousands of generated (pattern, zone, instant-sequence) cases per run, built to "
